@@ -2,6 +2,7 @@
 from .. import mir
 from ..term import Terms, show, alts, is_call, strip_try, walk
 from ..rules_signpair import run_signpair
+from ..rules_dep import run_eq_hash
 
 ZI = "zoned::ZonedInner"
 
@@ -16,6 +17,7 @@ def field_source(T, op):
 
 
 def run(ctx, rep):
+    run_eq_hash(ctx, rep)
     prog = ctx.prog("Q")
     # Eq/Ord/Hash of Zoned compare the (second, nanosecond) pair of the instant field by field (EQ-FIELDS), which is
     # "depends on the instant only" exactly if every instant has one representation: sign-consistent pairs
